@@ -6,7 +6,7 @@
     entry-point names contain no ["="], are not reserved, parent paths are duplicate-free,
     end in the schema itself and are prefix-closed. *)
 From Coq Require Import List String Bool NArith.
-From MV Require Import Base.Sx Toc.Layout Toc.UserView Toc.Sync Toc.SyncProofs.
+From MV Require Import Base.Sx Toc.Layout Toc.UserView Toc.Sync Toc.SyncProofs Toc.SyncMoveCopy.
 Import ListNotations.
 Local Open Scope string_scope.
 Local Open Scope list_scope.
@@ -22,38 +22,49 @@ Print Assumptions C06_sync_init.
 
     Full statement demanded:
       [forall E st o, env_ok E = true -> Sync E st -> Sync E (fst (s_step E st o))].
-    Proved below: (1) for every operation except a *successful* move / copy (plain and into a
-    group object) ([C06_sync_step_partial] + [C06_sync_step_refused]); (2) for those, reduced to the
-    file part [RawStep] -- the in-memory index part and the framing are proved
-    ([C06_sync_step_given_file]); [RawStep] itself is discharged per history by the verified
-    checker ([C06_checker_sound], see [C06_example_heavy]) and is what the harness evaluates
-    ([syncb]) after every model step.  Missing: the closed-form proof that the relink /
-    re-uuid folds of [c_move], [c_copy] re-establish [SyncRaw] (for [c_delete] it is done). *)
+    Proved below for every operation except ONE case: a copy WITH metadata
+    ([without_meta = false], [CCopy] or copy into a group object) that SUCCEEDS and re-uuids
+    the copied objects ([reuuid_region]).  For that case the file part [RawStep] stays a
+    premise ([C06_sync_step_general]); the index part is proved; [RawStep] is discharged per
+    history by the verified checker ([C06_checker_sound], [C06_example_heavy]) and is what the
+    harness evaluates ([syncb]) after every model step.  Everything else is unconditional:
+    attach / detach with every refusal, delete (datasets and whole groups), MOVE of datasets
+    (sidecar follows) and of groups (links relinked), COPY WITHOUT metadata of datasets and
+    groups (plain and into a group object), copy of a dataset that has no metadata (the
+    [RFailLate] case), every refused call, data operations, reopen. *)
 
-(** attach (incl. every refusal: read-only, reserved path, missing node, duplicate, unknown or
-    auxiliary schema, invalid value, failing export), detach, delete of datasets and of whole
-    groups (recursive destruction of the metadata below), create/require group and dataset,
-    [g[p] = v], attributes, lookups, reopen, patch boundary. *)
 Theorem C06_sync_step_partial : forall E st o,
-  env_ok E = true -> Sync E st -> is_heavy o = false -> Sync E (fst (s_step E st o)).
-Proof. exact sync_step_light. Qed.
+  env_ok E = true -> Sync E st -> copies_meta o = false -> Sync E (fst (s_step E st o)).
+Proof. exact sync_step_no_meta_copy. Qed.
 Print Assumptions C06_sync_step_partial.
 
-(** Every refused operation (any kind, incl. move / copy) keeps the state in sync
-    and leaves the raw tree untouched. *)
+(** Any operation that does not return [ROk] -- refused, or the late failure of copying a
+    dataset without metadata -- keeps the state in sync ... *)
+Theorem C06_sync_step_not_ok : forall E st o,
+  env_ok E = true -> Sync E st -> snd (s_step E st o) <> ROk -> Sync E (fst (s_step E st o)).
+Proof. exact sync_step_meta_copy_not_ok. Qed.
+Print Assumptions C06_sync_step_not_ok.
+
+(** ... and a refused one ([RGuard], [RFail]) leaves the raw tree untouched. *)
 Theorem C06_sync_step_refused : forall E st o,
   env_ok E = true -> Sync E st -> refused (snd (s_step E st o)) = true ->
   Sync E (fst (s_step E st o)) /\ raw (cs (fst (s_step E st o))) = raw (cs st).
 Proof. exact sync_step_refused. Qed.
 Print Assumptions C06_sync_step_refused.
 
-(** Move, copy: once the file part is in sync, the whole state is (the incrementally
-    maintained index follows every added and removed link). *)
-Theorem C06_sync_step_given_file : forall E st co,
-  env_ok E = true -> Sync E st -> is_heavy (SOp co) = true -> RawStep E st co ->
-  Sync E (fst (s_step E st (SOp co))).
-Proof. exact sync_step_heavy. Qed.
-Print Assumptions C06_sync_step_given_file.
+(** All operations; the file part is a premise only for a successful copy with metadata. *)
+Theorem C06_sync_step_general : forall E st o,
+  env_ok E = true -> Sync E st ->
+  (copies_meta o = true -> snd (s_step E st o) = ROk ->
+   match o with SOp co => RawStep E st co | _ => True end) ->
+  Sync E (fst (s_step E st o)).
+Proof. exact sync_step_general. Qed.
+Print Assumptions C06_sync_step_general.
+
+(** The file part of a move (dataset or group), unconditionally. *)
+Theorem C06_move_file_part : forall E st cwd s d, Sync E st -> RawStep E st (CMove cwd s d).
+Proof. exact raw_step_move. Qed.
+Print Assumptions C06_move_file_part.
 
 (** The executable checker of the file part is sound. *)
 Theorem C06_checker_sound : forall E T n pr, syncb_raw E T n pr = true -> SyncRaw E T n pr.
@@ -62,18 +73,18 @@ Print Assumptions C06_checker_sound.
 
 (** *** Histories *)
 
-(** Every state reached by a history is in sync; move / copy steps carry the file
-    part as a premise ([raw_steps_ok] is [True] for all other operations). *)
+(** Every state reached by a history is in sync; only successful copies with metadata carry
+    the file part as a premise ([meta_copies_ok] is [True] for every other step). *)
 Theorem C06_all_reachable_partial : forall E ops st,
-  env_ok E = true -> Sync E st -> raw_steps_ok E st ops -> Sync E (s_run E st ops).
-Proof. exact sync_run. Qed.
+  env_ok E = true -> Sync E st -> meta_copies_ok E st ops -> Sync E (s_run E st ops).
+Proof. exact sync_run_general. Qed.
 Print Assumptions C06_all_reachable_partial.
 
-Theorem C06_all_reachable_light : forall E ops,
-  env_ok E = true -> forallb (fun o => negb (is_heavy o)) ops = true ->
+Theorem C06_all_reachable_no_meta_copy : forall E ops,
+  env_ok E = true -> forallb (fun o => negb (copies_meta o)) ops = true ->
   Sync E (s_run E init_ss ops).
-Proof. exact sync_run_light. Qed.
-Print Assumptions C06_all_reachable_light.
+Proof. exact sync_run_no_meta_copy. Qed.
+Print Assumptions C06_all_reachable_no_meta_copy.
 
 (** *** Reopening: the index rebuilt from disk is the one maintained incrementally
     (extensionally, as Python compares dicts and sets). *)
@@ -147,8 +158,15 @@ Example C06_example :
   t_has (raw (cs (s_run E0 init_ss ops_chain))) (link_path "c06.cc__0.1.0" "u1") = true.
 Proof. exact example_in_sync. Qed.
 
-(** A history with copy (with and without metadata), move, delete and reopen; the file part
-    of the move / copy steps discharged by the verified checker. *)
+(** Move of a dataset and of a group, copy without metadata (plain and into a group), delete,
+    reopen: no premise. *)
+Example C06_example_move_copy :
+  Sync E0 (s_run E0 init_ss ops_move_copy) /\
+  t_has (raw (cs (s_run E0 init_ss ops_move_copy))) (link_path "c06.bb__0.1.0" "u0") = true.
+Proof. exact example_move_copy. Qed.
+
+(** A history that also copies WITH metadata; the file part of those steps discharged by the
+    verified checker. *)
 Example C06_example_heavy : Sync E0 (s_run E0 init_ss ops_heavy).
 Proof. exact example_heavy_in_sync. Qed.
 
